@@ -274,6 +274,8 @@ class Presentation(object):
         raise ValueError(self.keys)
 
     def missing_value(self):
+        if self.missing == 'NA':
+            return pd.NA
         return None if self.missing == 'None' else float('nan')
 
 
@@ -288,6 +290,9 @@ PRESENTATIONS = [
                  joindtype='str'),
     Presentation(spelling='uni', keys='neg', index='dup', colorder='jk', extra=True,
                  joindtype='str', missing='nan'),
+    # NA-backed pandas 'string' extension dtype (missing marker pd.NA); used by seed-independent sub-spaces only
+    Presentation(spelling='ascii', keys='int0', index='str', colorder='jk',
+                 joindtype='string', missing='NA'),
 ]
 
 
@@ -319,6 +324,8 @@ def mkframe(vals, pres=None, key_col='id', join_col='s', keys=None,
     key_series = pd.Series(list(keys), dtype=object if pres.keys == 'str' else None)
     if pres.joindtype == 'str':
         join_series = pd.Series(vals, dtype='str')
+    elif pres.joindtype == 'string':
+        join_series = pd.Series(vals, dtype=pd.StringDtype(na_value=pd.NA))
     else:
         join_series = pd.Series(vals, dtype=object)
     order = [key_col, join_col] if pres.colorder == 'kj' else [join_col, key_col]
